@@ -43,6 +43,14 @@ const BIGINT_BITS: usize = 4000;
 /// The number of limbs for the bigint.
 const BIGINT_LIMBS: usize = BIGINT_BITS / Limb::BITS as usize;
 
+/// Verification hook (off unless built with `--cfg lexical_verif`): the private sizes.
+#[cfg(lexical_verif)]
+#[doc(hidden)]
+pub const VERIF_BIGINT_BITS: usize = BIGINT_BITS;
+#[cfg(lexical_verif)]
+#[doc(hidden)]
+pub const VERIF_BIGINT_LIMBS: usize = BIGINT_LIMBS;
+
 /// Storage for a big integer type.
 ///
 /// This is used for algorithms when we have a finite number of digits.
@@ -145,6 +153,11 @@ const BIGFLOAT_BITS: usize = 1200;
 /// The number of limbs for the Bigfloat.
 #[cfg(feature = "radix")]
 const BIGFLOAT_LIMBS: usize = BIGFLOAT_BITS / Limb::BITS as usize;
+
+/// Verification hook (off unless built with `--cfg lexical_verif`): the private sizes.
+#[cfg(all(lexical_verif, feature = "radix"))]
+#[doc(hidden)]
+pub const VERIF_BIGFLOAT_BITS: usize = BIGFLOAT_BITS;
 
 /// Storage for a big floating-point type.
 ///
